@@ -119,7 +119,9 @@ def run(chk):
     chk.cov["rule"] = ("same generator as C03 (structured degenerate stream + seeded random over all valid phase/fabric pairs, both regimes, 5 flow families, "
                        "4 volume families, parameter ranges of the quantifier); each case is evaluated by the compiled implementation, the interpreted source "
                        "(NUMBA_DISABLE_JIT=1, cases with <= 64 grains), the extracted list model `derivs` and the extracted published model `spec_derivs`; "
-                       "cases within 1e-9 relative of an activity tie are excluded from value comparison and counted in near_discontinuity; "
+                       "cases within 1e-9 relative of an activity tie that involves the LEAST active system (a discontinuity of the model) are excluded from value comparison and "
+                       "counted in near_discontinuity; near ties among the most active systems (model continuous: generated family with opposite / equal invariant signs, gap 0..5e-10) "
+                       "are compared at 1e-7 and counted in near_tie_compared; "
                        "distinct = byte-wise distinct inputs; non-trivial = not all returned rates are zero")
     bad = []
     if br.drivers.get("core", 1) is None:
@@ -128,6 +130,10 @@ def run(chk):
         bad += c03.compare(chk, core, cases, "derivs")
         # the extracted published model is super-linear in the grain count (16000 grains: 13 s; 100000: > 1 h)
         spec_cases = [c for c in cases if c["ng"] <= 20000]
+        if chk.tier == "quick":   # block-boundary sizes: the published model up to 5000 grains, and once at 2^14
+            big = [c for c in spec_cases if c["ng"] > 5000]
+            keep = [c for c in big if c["ng"] == 16384][:1]
+            spec_cases = [c for c in spec_cases if c["ng"] <= 5000] + keep
         chk.cov["spec_model_max_grains"] = max(c["ng"] for c in spec_cases)
         bad += [(c, "published model: " + m) for c, m in c03.compare(chk, core, spec_cases, "spec_derivs")]
         small = [c for c in cases if c["ng"] <= 3]
@@ -147,7 +153,7 @@ def run(chk):
             elif r[0] == "OK" and not G.near_discontinuity(c):
                 a = list(r[1].reshape(-1)) + list(r[2])
                 b = list(ir[1].reshape(-1)) + list(ir[2])
-                okc, idx = common.vec_close(a, b, rtol=1e-9)
+                okc, idx = common.vec_close(a, b, rtol=1e-9 if G.tie_class(c) == "none" else 1e-7)
                 if not okc:
                     bad.append((c, f"compiled vs interpreted differ at component {idx}: {a[idx]!r} vs {b[idx]!r}"))
         chk.cov["compiled_vs_interpreted_cases"] = nint
@@ -157,7 +163,7 @@ def run(chk):
         return
     found = []
     seen = set()
-    pool = [c for c, _ in bad] + [c for c in c03.gen_cases(chk, "quick") if c["ng"] <= 64]
+    pool = [c for c, _ in bad] + [c for c in c03.gen_cases(chk, "quick") if c["ng"] <= 64] + c03.search_block_pool(chk, cap=1100)
     for c in pool:
         fails = oracle(core, c)
         if fails:
